@@ -3,6 +3,7 @@ From packets to the file: the three layers composed (C03 ingest → C01/C02 pipe
 -/
 import DastardV.Lemmas.Compose
 import DastardV.Lemmas.ComposeFile
+import DastardV.Lemmas.ComposeLancero
 namespace DastardV.Compose
 open Pipe
 
@@ -13,7 +14,7 @@ writing period that spans the run: the channel's LJH 2.2 file, read back with th
 holds exactly the records the pipeline published for the channel — and by `abaco_no_pulse_lost` (same
 hypotheses) those records satisfy every clause of C02 on the gap-filled packet stream: every edge /
 level crossing far enough from the ends of the stream is covered by a record in the file. -/
-theorem abaco_to_ljh22_file (fpp : Nat) (L : List C03.GL) (f0 : Int) (hf0 : -2305843009213693952 + nsamp ≤ f0)
+theorem abaco_to_ljh22_file (fpp : Nat) (L : List C03.GL) (f0 : Int) {nsamp : Int}
     (H : List (List (List C03.Pkt))) (gs : List C03.Group) (perms : List (List Nat))
     (hv : C03.validIn fpp L H = true) (hi : C03.InitOK L gs) (hp : C03.PermsOK L.length H perms)
     (s' : C03.St) (outs : List (Nat × C03.Block))
@@ -53,6 +54,62 @@ theorem abaco_to_ljh22_file (fpp : Nat) (L : List C03.GL) (f0 : Int) (hf0 : -230
   have := pipeline_to_ljh22_file zts j sg _ _ 0 f0 _ _ c res hb hc (hem c hc) hres p hdr (by rw [hpn, hcn.1]) batches hbat
   simp only at this ⊢
   rw [hcn.1, hcn.2] at this
+  exact this
+
+
+/-- the channel `prepare` creates has the requested lengths -/
+theorem prepare_lens {nch : Nat} {npre nsamp : Int} {saved : List (Nat × Trig.TS)} {j : Nat} {c : Trig.Chan}
+    (hc : (prepare nch npre nsamp saved).chans[j]? = some c) : c.nsamp = nsamp ∧ c.npre = npre := by
+  simp only [prepare, List.getElem?_map] at hc
+  cases hr : (List.range nch)[j]? with
+  | none => simp [hr] at hc
+  | some i =>
+    simp only [hr, Option.map_some, Option.some.injEq] at hc
+    subst hc
+    exact ⟨rfl, rfl⟩
+
+/-- **Lancero, end to end: card bytes → frames → blocks → triggers → records → LJH 2.2 file.**  For every
+geometry, every list of well-formed frames, EVERY schedule of reads and every mixer state: the reader does
+not crash and, for every pipeline channel `j` whose restored trigger settings are not edge-multi and a
+writing period that spans the run, the channel's LJH 2.2 file read back with the documented layout holds
+exactly the records the pipeline published for the channel (which, by `lancero_no_pulse_lost`, cover every
+qualifying crossing of the card's words). -/
+theorem lancero_to_ljh22_file {σ ρ : Type} (fops : C04.FloatOps σ ρ) (zero : σ) (scaleOf : Nat → σ)
+    (g : C04.Geom) (hg : C04.geomOK g = true) (frames : List C04.Frame)
+    (hwf : ∀ fr ∈ frames, C04.frameWF g fr = true) (ticks : List (Nat × Int))
+    (st : C04.DState σ)
+    (mk : C04.Block → Int × Int × List Bool) (j : Nat) (hj : j < g.nchan) (sg : Bool)
+    (hsg : ∀ b, ((mk b).2.2)[j]?.getD false = sg)
+    (npre nsamp : Int) (saved : List (Nat × Trig.TS))
+    (hem : ∀ c, (prepare g.nchan npre nsamp saved).chans[j]? = some c → c.ts.edgeMulti = false)
+    (zts : List (List (Int × Int)))
+    (p : C05.Params) (hdr : C05.Bytes) (hpn : p.nsamp = nsamp) :
+    ∃ bufs, C04.runReader g { pending := [], future := C04.encFrames frames } false ticks = .ok bufs ∧
+      let blocks := C04.blocksOf (C04.runSteps fops zero scaleOf g st (bufs.map C04.Step.buf))
+      ∀ res, runOps zts (prepare g.nchan npre nsamp saved) (blocks.map (lblockOp mk)) = some res →
+      ∀ (batches : List (List C05.W22)), batches.flatten = (chanRecs j res).map toW22 →
+        let recs := chanRecs j res
+        let fin := C05.run (C05.fmt22 p hdr) {} (fileOps batches)
+        (∀ r ∈ recs, (r.data.length : Int) = nsamp ∧ r.npre = npre) ∧
+        (recs = [] → C05.fileOf fin = none) ∧
+        (recs ≠ [] → ∃ file, C05.fileOf fin = some file ∧ file.take hdr.length = hdr ∧
+          C05.parseBody (C05.parseLJH22 p.nsamp.toNat 2) (file.drop hdr.length) =
+            some (recs.map fun r => C05.expect22 p.subdiv p.suboff (toW22 r)) ∧
+          file.length = hdr.length + recs.length * (16 + p.nsamp.toNat * 2)) := by
+  obtain ⟨bufs, hrun, _, hrest⟩ := C04.C04_chunking_independent fops zero scaleOf g hg frames hwf ticks st
+  obtain ⟨_, _, hcont, _, hshape, _⟩ := hrest
+  refine ⟨bufs, hrun, ?_⟩
+  intro blocks res hres batches hbat
+  have hjn : j < (prepare g.nchan npre nsamp saved).chans.length := by simp [prepare]; exact hj
+  obtain ⟨c, hc⟩ : ∃ c, (prepare g.nchan npre nsamp saved).chans[j]? = some c :=
+    ⟨_, List.getElem?_eq_getElem hjn⟩
+  have hb := lancero_blocks_blocksFor mk g j sg hsg
+    (fun m => match blocks[m]? with | some b => ((mk b).1, (mk b).2.1) | none => (0, 0))
+    blocks 0 st.next hshape hcont hj (by intro i b hb; simp [hb])
+  obtain ⟨hcn1, hcn2⟩ := prepare_lens hc
+  have := pipeline_to_ljh22_file zts j sg _ _ 0 st.next _ _ c res hb hc (hem c hc) hres p hdr (by rw [hpn, hcn1]) batches hbat
+  simp only at this ⊢
+  rw [hcn1, hcn2] at this
   exact this
 
 end DastardV.Compose
